@@ -130,6 +130,10 @@ func execC34B(t *testing.T, sc *c34Scenario, keepLog bool) *Outcome {
 							c.WriteRecord(22, []byte{24, 0, 0, 1, 1})
 							c.NetConn().Close()
 						}
+					case "key_update_raw":
+						if c.ConnectionState().HandshakeComplete {
+							c.WriteRecord(22, []byte{24, 0, 0, 1, 1})
+						}
 					case "closewrite":
 						c.CloseWrite()
 					case "close":
